@@ -150,7 +150,9 @@ def check(world) -> Dict[str, Any]:
         tag0 = "file-reversed" if rev else "file-order"
         for delay in (DELAYS if not rev else [1]):
             exp = {r: expected(e, delay) for r, e in ranks.items()}
-            subsets = [None] + ([[7], [9], [9, 7]] if (world["s9"] and delay == 1 and rev) else [])
+            # a strict subset is asked for first, the default (all streams) afterwards, on the same object
+            sub = world["s9"] and delay == 1 and rev
+            subsets = ([[7]] if sub else []) + [None] + ([[9], [9, 7]] if sub else [])
             for streams in subsets:
                 for rk in ([None, [0, 1], [1, 0]] if len(ranks) > 1 and streams is None else [None]):
                     def run():
